@@ -459,7 +459,7 @@ class Parser:
                 self.next()
                 continue
             e = self.expr()
-            blocklike = e[0] in ("if", "while", "for", "block", "unsafe", "loop", "match")
+            blocklike = e[0] in ("if", "while", "for", "block", "unsafe", "loop", "match", "iflet", "whilelet")
             if self.at(";"):
                 self.next()
                 stmts.append(("expr", e, True, at))
@@ -672,9 +672,42 @@ class Parser:
                 self.i = j
                 return ("macro", "::".join(segs), args, [x[1] for x in raw])
             if self.at("{") and not no_struct and segs[-1][:1].isupper():
-                raise Unsupported("struct literal")
+                self.next()
+                fields = []
+                base = None
+                while not self.at("}"):
+                    if self.at(".."):
+                        self.next()
+                        base = self.expr()
+                    else:
+                        fname = self.ident()
+                        if self.at(":"):
+                            self.next()
+                            fields.append((fname, self.expr()))
+                        else:
+                            fields.append((fname, ("path", [fname], [])))
+                    if self.at(","):
+                        self.next()
+                self.expect("}")
+                return ("structlit", segs, fields, base)
             return ("path", segs, gargs)
         raise Unsupported("unexpected token %r" % (t[1],))
+
+    def _struct_has_body(self):
+        """at `struct Name` possibly followed by `<...>`: is the next thing a `{`?"""
+        j = self.i + 2
+        if self.toks[j][1] == "<":
+            depth = 0
+            while self.toks[j][0] != "eof":
+                if self.toks[j][1] == "<":
+                    depth += 1
+                elif self.toks[j][1] == ">":
+                    depth -= 1
+                    if depth == 0:
+                        j += 1
+                        break
+                j += 1
+        return self.toks[j][1] == "{"
 
     # ---------------------------------------------------------------- items
     def items(self, prefix=""):
@@ -791,7 +824,17 @@ class Parser:
                 while not self.at("{"):
                     hdr.append(self.next()[1])
                 self.next()
-                # `impl Trait for Type` / `impl Type`
+                # `impl Trait for Type` / `impl Type`; generic parameter lists are dropped
+                flat = []
+                depth = 0
+                for tok in hdr:
+                    if tok == "<":
+                        depth += 1
+                    elif tok == ">":
+                        depth -= 1
+                    elif depth == 0:
+                        flat.append(tok)
+                hdr = flat
                 tname = hdr[-1] if hdr else "?"
                 if "for" in hdr:
                     tname = hdr[hdr.index("for") + 1]
@@ -810,9 +853,19 @@ class Parser:
                         self.next()
                 else:
                     self.next()
-            elif self.at_ident("struct") and self.peek(1)[0] == "ident" and self.peek(2)[1] == "{":
+            elif self.at_ident("struct") and self.peek(1)[0] == "ident" and self.peek(2)[1] in ("{", "<") and self._struct_has_body():
                 self.next()
                 sname = self.ident()
+                if self.at("<"):
+                    depth = 0
+                    while True:
+                        t = self.next()
+                        if t[1] == "<":
+                            depth += 1
+                        elif t[1] == ">":
+                            depth -= 1
+                            if depth == 0:
+                                break
                 self.expect("{")
                 fields = []
                 try:
@@ -839,6 +892,45 @@ class Parser:
                             depth += 1
                         elif t[1] == "}":
                             depth -= 1
+            elif self.at_ident("enum") and self.peek(1)[0] == "ident" and self.peek(2)[1] == "{":
+                self.next()
+                ename = self.ident()
+                self.expect("{")
+                start = self.i
+                try:
+                    variants = []
+                    while not self.at("}"):
+                        self.attrs()
+                        vname = self.ident()
+                        vfields = []
+                        kind = "unit"
+                        if self.at("{"):
+                            kind = "struct"
+                            self.next()
+                            while not self.at("}"):
+                                self.attrs()
+                                fname = self.ident()
+                                self.expect(":")
+                                vfields.append((fname, self.type()))
+                                if self.at(","):
+                                    self.next()
+                            self.expect("}")
+                        elif self.at("("):
+                            kind = "tuple"
+                            self.next()
+                            while not self.at(")"):
+                                vfields.append((str(len(vfields)), self.type()))
+                                if self.at(","):
+                                    self.next()
+                            self.expect(")")
+                        if self.at(","):
+                            self.next()
+                        variants.append((vname, kind, vfields))
+                    self.expect("}")
+                    out.append(("enum", ename, variants, at))
+                except Unsupported:
+                    self.i = start - 1
+                    self._skip_braces()
             elif self.at_ident("struct") or self.at_ident("enum") or self.at_ident("trait") or self.at_ident("macro_rules"):
                 while not self.at(";") and not self.at("{") and not self.at("("):
                     self.next()
